@@ -1,9 +1,45 @@
-(** C20 (stage A): obligations on the translated data; see Inst/Linked.v. *)
-From RV Require Import Model.Base Model.Spirv Model.Grammar Model.Reflect Model.Loader.
-From RV Require Import Gen.SpirvData Gen.LoaderData Inst.Linked.
+(** C20 - rspirv-dis prints the library disassembly or an error and never
+    crashes.  Statements only; proofs are [exact] of lemmas of
+    Proofs/DisSafeFacts.v.  [dis_main] is the command-line tool as a function of
+    the file contents (load_bytes, then Module::disassemble or the error); the
+    real binary is run on the same files on every check and compared with the
+    library result.  For EVERY byte string. *)
+From RV Require Import Model.Base Model.Spirv Model.Grammar Model.Reflect Model.Inst Model.Module Model.Decoder Model.Parser Model.Loader Model.Disasm.
+From RV Require Import Gen.SpirvData Gen.LoaderData Inst.Linked Inst.Run Inst.Run2 Inst.DisVocab.
+From RV Require Import Proofs.CodecFacts Proofs.LayoutFacts Proofs.EndToEndFacts Proofs.DisSafeFacts.
 
 Theorem C20_loader_arms_link :
   link_larms op_enum loader_arms_raw = Some loader_arms /\ loader_translation_failures = [].
 Proof. exact (conj loader_arms_link loader_translated_completely). Qed.
 
+(** exit status 0, never a panic; the output is exactly the library's
+    disassembly of the loaded module when the load succeeds, and the loading
+    error otherwise *)
+Theorem C20_cli_behaviour :
+  forall bytes, Forall byte bytes ->
+  snd (dis_main bytes) = 0 /\ fst (dis_main bytes) <> CliPanic /\
+  match snd (load_case bytes) with
+  | Ok _ => fst (dis_main bytes)
+            = CliText (fst (dis_module V (loaded_header bytes) (loaded_module bytes)))
+                      (snd (dis_module V (loaded_header bytes) (loaded_module bytes)))
+  | Er e => fst (dis_main bytes) = CliError e
+  | Panic _ => False
+  end.
+Proof. exact dis_main_spec. Qed.
+
+(** one line per instruction of the loaded module; the extracted [dis_case] run
+    against the real disassembler is this function *)
+Theorem C20_library_disassembly_total :
+  forall bytes, Forall byte bytes ->
+  (Run2.dis_case bytes = None <-> snd (load_case bytes) <> Ok tt)
+  /\ (snd (load_case bytes) = Ok tt ->
+      exists hd lines,
+        Run2.dis_case bytes = Some (hd, lines, false)
+        /\ (hd, lines) = dis_module V (loaded_header bytes) (loaded_module bytes)
+        /\ length lines = length (all_insts (loaded_module bytes))
+        /\ hd = option_map dis_header (loaded_header bytes)).
+Proof. exact dis_case_total. Qed.
+
 Print Assumptions C20_loader_arms_link.
+Print Assumptions C20_cli_behaviour.
+Print Assumptions C20_library_disassembly_total.
